@@ -650,6 +650,21 @@ def check_logreg(ctx, cases):
                               f"LogisticRegression(random_state={c['seed']}, fit_intercept={c['intercept']}) on {c['n']} rows, "
                               f"{c['classes']} classes: n_jobs=1 and n_jobs={nj} differ at {describe_logreg_diff(d)}",
                               {"kind": "logreg-njobs", "case": c, "n_jobs": [1, nj], "first_difference": d})
+    # the same under the threading backend (`prefer='processes'` is only a hint: a caller's joblib context overrides it)
+    import joblib
+    for i, c in enumerate(cases):
+        if not ok[i]:
+            continue
+        with joblib.parallel_config(backend="threading"):
+            outs = fit_logreg(c, 4)
+        d = first_diff(refs[i], outs)
+        ctx.case(("logreg-njobs-threads", c["n"], c["classes"], c["seed"]))
+        if d and not _numerically_equal(refs[i], outs):
+            ok[i] = False
+            ctx.violation("C15:logreg:shared-rng:n_jobs",
+                          f"LogisticRegression(random_state={c['seed']}, fit_intercept={c['intercept']}) on {c['n']} rows, "
+                          f"{c['classes']} classes: n_jobs=1 and n_jobs=4 (threading backend) differ at {describe_logreg_diff(d)}",
+                          {"kind": "logreg-njobs", "case": c, "n_jobs": [1, 4], "backend": "threading", "first_difference": d})
     for i in range(len(cases)):
         if ok[i]:
             ctx.trace_ok()
@@ -743,6 +758,11 @@ def observe_forest(c, n_jobs):
             "parent": parent}
 
 
+def _subsequence(xs, ys):
+    it = iter(ys)
+    return all(any(x == y for y in it) for x in xs)
+
+
 def check_discipline(ctx, c, n_jobs, lean_lines, lean_expect):
     """direct checks on one instrumented fit; queues the subset correspondence for the Lean driver"""
     o = observe_forest(c, n_jobs)
@@ -760,11 +780,10 @@ def check_discipline(ctx, c, n_jobs, lean_lines, lean_expect):
                       f"streams depend on the schedule", dict(data, late_draws=[e[0] for e in late[:5]]))
         ok = False
     got = [o["seeds"].get(i) for i in range(k)]
-    if ok and (not all(isinstance(s, (int, np.integer)) for s in got) or [int(s) for s in got] != [int(v) for v in drawn[:k]]
-               or len(drawn) != k):
+    if ok and (not all(isinstance(s, (int, np.integer)) for s in got) or not _subsequence([int(s) for s in got], drawn)):
         ctx.violation("C15:forest:seeds-not-from-parent-in-order",
                       f"RandomForestClassifier(n_estimators={k}, random_state={c['seed']}): the trees' random_state values "
-                      f"{[repr(s)[:24] for s in got][:4]}… are not the {k} integers drawn sequentially from the parent before "
+                      f"{[repr(s)[:24] for s in got][:4]}… are not (in order) among the integers drawn from the parent before "
                       f"the parallel section ({drawn[:4]}…, {len(drawn)} drawn)", dict(data, seeds=[repr(s)[:40] for s in got], drawn=drawn[:k + 2]))
         ok = False
     # generators: one per tree, none shared, none is the parent
@@ -916,6 +935,8 @@ def replay(ctx, data):
     kind = d.get("kind")
 
     class _C:
+        boundary_skipped = 0
+
         def __init__(self):
             self.v = []
 
